@@ -536,7 +536,10 @@ def packs : List Cmd → List (List Cmd)
     | (p :: ps) =>
       match p with
       | [] => [c] :: ps
-      | d :: _ => if c.entity = d.entity then (c :: p) :: ps else [c] :: p :: ps
+      | d :: _ =>
+        -- a creation always opens a new pack
+        let dCreate := match d with | .create .. => true | _ => false
+        if c.entity = d.entity && !dCreate then (c :: p) :: ps else [c] :: p :: ps
 
 def closedMask (deps : List (CompId × Mask)) (m : Mask) : Mask := Mask.union m (extraComponents deps m)
 
